@@ -129,7 +129,7 @@ def execute(version, hist_abs, seed, thr=None, interleave=None, policy=None, chu
     return run, {'tp': prof.ge(107), 'ev': ev, 'version': version}, prof
 
 
-def two_sessions(version, hist1, hist2, seed, thr1, thr2):
+def two_sessions(version, hist1, hist2, seed, thr1, thr2, drop_first=False):
     """The same Connection object plays two sessions in a row (connect again after the server's disconnect): state of
     the first session (compression, spawned flag, queue, reactor) must not leak into the second.  Returns two traces."""
     from minecraft.networking.packets import Packet
@@ -142,6 +142,8 @@ def two_sessions(version, hist1, hist2, seed, thr1, thr2):
     def factory(idx, sess):
         sc = TracingScript(run, prof, [])
         sc.steps = play_steps(sc, prof, hists[min(idx, 1)], (thr1, thr2)[min(idx, 1)], None)
+        if idx == 0 and drop_first:
+            sc.steps.append(('close',))     # the link drops right behind the last packets: answers stay queued, nothing is flushed
         return sc
     run.serve(factory)
     spawned = []
@@ -175,7 +177,9 @@ def two_sessions(version, hist1, hist2, seed, thr1, thr2):
         if sp and sp[0]:
             ev.append({'k': 'spawned'})
         out.append({'tp': prof.ge(107), 'ev': ev, 'version': version})
-    return run, out
+    # what each TCP connection received first: always handshake, login start
+    heads = [[p['t'] for p in sc.parsed[:2]] for sc in run.scripts]
+    return run, out, heads
 
 
 def pending_write_scenario(version, seed, n_pending, policy=None):
@@ -342,9 +346,18 @@ def run(chk):
         if j % 2:
             h2 = [x for x in h2 if x[0] != 'pl']         # no position-and-look in the second session: spawned must be reset
         thr1, thr2 = [(0, None), (64, None), (None, 0), (1, 256)][j % 4]
-        run_, trs = two_sessions(version, h1, h2, chk.seed * 7331 + j, thr1, thr2)
+        drop = j % 3 == 2
+        if drop:                                # session 1: no disconnect packet, the link drops behind a run of keep-alives
+            h1 = [x for x in h1 if x[0] != 'disc'] + [('ka', hr.getrandbits(30)) for _ in range(hr.randint(1, 6))]
+        run_, trs, heads = two_sessions(version, h1, h2, chk.seed * 7331 + j, thr1, thr2, drop_first=drop)
         chk.traces += 1
         chk.case(('two-sessions', j))
+        if drop:
+            trs = trs[1:]                       # the dropped session is not a clean one (C15 covers it); the next one must be
+        if heads != [['handshake', 'login_start']] * len(heads):
+            chk.violation('play:two-sessions:stale-frame', 'a session on a re-used Connection (protocol %d, first session %s) does not start '
+                          'with handshake and login start: the server received %r' % (version, 'dropped' if drop else 'closed', heads),
+                          {'version': version, 'drop': drop})
         if run_.outcome != 'done' or len(run_.scripts) != 2:
             chk.violation('play:two-sessions:%s' % run_.outcome, 'two sessions on one Connection at protocol %d (thresholds %r then %r): '
                           'execution %s, %d TCP connections, errors %r' % (version, thr1, thr2, run_.outcome, len(run_.scripts), run_.errors[:2]),
